@@ -756,6 +756,13 @@ func (e *Engine) MessageReceived(ctx context.Context, p peer.ID, m bsmsg.BitSwap
 	e.lock.Lock()
 
 	if m.Full() {
+		// The message replaces the peer's want-list: nothing that is still queued for the peer
+		// is wanted any more; the wants that the message restates are queued again below.
+		if topics := e.peerRequestQueue.PeerTopics(p); topics != nil {
+			for _, topic := range topics.Pending {
+				e.peerRequestQueue.Remove(topic, p)
+			}
+		}
 		e.peerLedger.ClearPeerWantlist(p)
 	}
 
